@@ -35,6 +35,12 @@ type Threads struct {
 	Deadlock string
 	// FilterPoint, if set, decides whether a point is a scheduling point (return false to run through).
 	FilterPoint func(thread int, name string) bool
+	// BeforeRelease, if set, is called with the thread about to be released and the point it is parked at;
+	// returning false ends the run (used for ready-set analysis: the harness inspects the state at that instant).
+	BeforeRelease func(thread int, name string) bool
+	// Aborted is set when BeforeRelease ended the run.
+	Aborted    bool
+	daemonTail int
 }
 
 // Point is one scheduling decision.
@@ -55,6 +61,8 @@ type thread struct {
 	// lock the thread waits for (nil if none)
 	wantLock  *zzvsync.Lock
 	wantWrite bool
+	// daemon threads are goroutines of the system under test (never finish).
+	daemon bool
 }
 
 type threadExit struct{}
@@ -88,6 +96,45 @@ func (s *Threads) Go(name string, body func(ctx context.Context)) {
 }
 
 type threadKey struct{}
+
+// Adopt registers a goroutine that the system under test starts itself: pass the returned context to the
+// code that spawns it. It becomes schedulable whenever it reaches a hook point; it never has to finish.
+func (s *Threads) Adopt(name string) context.Context {
+	th := &thread{id: len(s.threads), name: name, gate: make(chan struct{}), daemon: true}
+	s.threads = append(s.threads, th)
+	return gchan.WithVerifHook(s.ctx, func(op, label string) {
+		if op == "Point" {
+			s.parkDaemon(th, label)
+		} else {
+			s.parkDaemon(th, op+":"+label)
+		}
+	})
+}
+
+func (s *Threads) parkDaemon(th *thread, name string) {
+	if s.FilterPoint != nil && !s.FilterPoint(th.id, name) {
+		return
+	}
+	th.at = name
+	select {
+	case <-th.gate:
+		th.at = ""
+	case <-s.ctx.Done():
+		th.at = ""
+	}
+}
+
+// ThreadState reports where a thread is: "finished", "at:<point>", or "blocked" (inside the system under test).
+func (s *Threads) ThreadState(id int) string {
+	th := s.threads[id]
+	if th.finished {
+		return "finished"
+	}
+	if th.at != "" {
+		return "at:" + th.at
+	}
+	return "blocked"
+}
 
 func (s *Threads) park(th *thread, name string) {
 	if s.FilterPoint != nil && name != "start" && !s.FilterPoint(th.id, name) {
@@ -179,10 +226,23 @@ func (s *Threads) Run() {
 	for step := 0; ; step++ {
 		synctest.Wait()
 		ids, names, still := s.enabled()
+		allDone := true
+		for _, th := range s.threads {
+			if !th.daemon && !th.finished {
+				allDone = false
+			}
+		}
+		if allDone {
+			// Let daemon goroutines that are parked mid-way reach their next point, a few times, then stop.
+			s.daemonTail++
+			if len(ids) == 0 || s.daemonTail > 3 {
+				return
+			}
+		}
 		if len(ids) == 0 {
 			var stuck []string
 			for _, th := range s.threads {
-				if !th.finished {
+				if !th.finished && !th.daemon {
 					where := th.at
 					if where == "" {
 						where = "blocked inside the system under test"
@@ -204,6 +264,10 @@ func (s *Threads) Run() {
 		}
 		s.Points = append(s.Points, Point{Enabled: ids, Names: names, Chosen: choice, RunningStillEnabled: still})
 		th := s.threads[ids[choice]]
+		if s.BeforeRelease != nil && !s.BeforeRelease(th.id, th.at) {
+			s.Aborted = true
+			return
+		}
 		s.cur = th.id
 		th.gate <- struct{}{}
 	}
